@@ -26,12 +26,13 @@ two views, independent of the reader model; it follows the traversal of `touchOK
 Everything else may differ: other rows, other validity bits, bytes outside the designated slice, fields the target
 does not read, children slots row `i` does not refer to, null slots' values.
 
-It is EXACT for reads that succeed; for a read that fails it may ask for more than the read looked at, in three
+It is EXACT for reads that succeed; for a read that fails it may ask for more than the read looked at, in four
 ways: (1) the traversal is not cut at the first failing field / element; (2) a target the column's reader has no
 method for (an error before any data is looked at) still compares the slot of a leaf column, the offset pair of a
 list column and the head of a union column; (3) where an element range leaves the child (`e > lenOf el`: the read
 fails there, `readAs_touch_in_range`) the children have to be equal as a whole — that keeps the evaluation bounded by
-the size of the views, whatever lengths a corrupted view declares.
+the size of the views, whatever lengths a corrupted view declares; (4) a dictionary key above i64::MAX (an error before
+the values are looked at) still compares the value slot.
 
 `SaModel/Props/C17.lean`: `untouched_ok` (`touchEq t a a' i = true → readAs Fixes.all t a i = readAs Fixes.all t a' i`).
 -/
